@@ -11,7 +11,9 @@ def main():
         return 2
     cmd = sys.argv[1]
     if cmd == "setup":
-        lib.build_harness("debug")
+        import glob
+        for f in sorted(glob.glob(os.path.join(lib.ROOT, "harness", "src", "bin", "*.rs"))):
+            lib.build_harness(os.path.basename(f)[:-3], "debug")
         ok, out = lib.build_coq()
         if not ok:
             print(out[-4000:])
@@ -31,6 +33,13 @@ def main():
             res.violation("check machinery could not complete: " + str(e)[:3000], {"error": str(e)[-3000:]},
                           has_input=False)
         return res.finish()
+    if cmd == "replay":
+        import json, subprocess
+        r = json.load(open(sys.argv[2]))
+        print(json.dumps(r, indent=1)[:20000])
+        base = os.path.basename(sys.argv[2])[:-5].split("-")
+        env = dict(os.environ, VERIF_SEED=base[2], VERIF_TIER=base[1])
+        return subprocess.call([sys.executable, os.path.abspath(__file__), "check", r["property"], "--tier", base[1]], env=env)
     print(__doc__)
     return 2
 
